@@ -224,6 +224,29 @@ proof fn lemma_tail_split(l: Location, sent: int)
     let l2 = Location { max_cut: (l.max_cut + sent) as u64, segment: l.segment };
     assert(tail(l) =~= tail(l).subrange(0, sent) + tail(l2));
 }
+
+/// lemma over the contract of get_next: a delivered response strictly shrinks what is outstanding, so a session
+/// sends at most |outstanding| responses (in fact ceil(|outstanding| / COMMAND_RESPONSE_MAX)) before it is drained,
+/// and the call after that writes SyncEnd — "every session ends with an end message after finitely many responses".
+pub proof fn lemma_response_makes_progress(hdr: Seq<u8>, o: SyncResponder, f: SyncResponder)
+    requires
+        next_ok(hdr, o, f), o.next_send < o.to_send@.len(), all_valid(o.to_send@, o.next_send as int),
+    ensures
+        remaining(f.to_send@, f.next_send as int).len() < remaining(o.to_send@, o.next_send as int).len(),
+{
+    let rem0 = remaining(o.to_send@, o.next_send as int);
+    let rem1 = remaining(f.to_send@, f.next_send as int);
+    // the entry at next_send is a valid location: its tail holds at least one command
+    assert(valid(o.to_send@[o.next_send as int]));
+    assert(tail(o.to_send@[o.next_send as int]).len() >= 1);
+    assert(rem0.len() >= 1);
+    assert((wire_ids(hdr) + rem1).len() == wire_ids(hdr).len() + rem1.len());
+    if wire_ids(hdr).len() != COMMAND_RESPONSE_MAX {
+        // drained: nothing is left
+        assert(f.next_send >= f.to_send@.len());
+        assert(rem1.len() == 0);
+    }
+}
 '''
 
 GET_COMMANDS = FnSpec(
